@@ -51,6 +51,15 @@ Definition cmd_doc (s : bytes) : bytes :=
   | PPanic _ => str "PANIC-model"
   end.
 
+(* docf: verdicts of every front end (toml::from_str, toml_edit::de::from_str, from_slice, ...):
+   all of them run parse_document; from_slice checks UTF-8 first (de/mod.rs: from_slice) *)
+Definition cmd_docf (s : bytes) : bytes :=
+  if utf8_valid_b s then
+    let v := match parse_document s with POk _ => str "ok" | PErr _ _ => str "err" | PPanic _ => str "PANIC-model" end in
+    str "utf8=yes edit=" ++ v ++ str " im=" ++ v ++ str " toml_table=" ++ v ++ str " toml_parse=" ++ v
+    ++ str " edit_de=" ++ v ++ str " slice=" ++ v
+  else str "utf8=no slice=err".
+
 (* val: Value::from_str; decoded value and its Display *)
 Definition cmd_val (s : bytes) : bytes :=
   match parse_value_raw s with
@@ -74,4 +83,5 @@ Definition run_cmd (name : bytes) (args : list bytes) : bytes :=
   else if bytes_eqb name (str "dtp") then cmd_dtp args
   else if bytes_eqb name (str "doc") then match args with [s] => cmd_doc s | _ => str "bad-args" end
   else if bytes_eqb name (str "val") then match args with [s] => cmd_val s | _ => str "bad-args" end
+  else if bytes_eqb name (str "docf") then match args with [s] => cmd_docf s | _ => str "bad-args" end
   else str "unknown-command".
